@@ -210,6 +210,43 @@ def run(ctx):
     # restart re-enables workers: restart_workers must drop the old id from _closed? (ids change for process/remote; thread ids change too)
     from .c07 import check_enqueue_callers
     check_enqueue_callers(ctx, pool, run, run.nested, rule='R3')
+    # frame: who may touch the pool-level state
+    POOL_FRAME = {
+        '_workers': {'__init__', 'add_worker', 'attach', 'restart_workers'},
+        '_queues': {'__init__', 'add_worker', 'attach', 'restart_workers', '_close', 'run'},
+        '_pool_closed': {'__init__', '_close'},
+        '_map_guard': {'__init__', 'run'},
+    }
+    MUT2 = ('pop', 'clear', 'update', 'setdefault', 'popitem', '__setitem__', '__delitem__')
+    n_fr = 0
+    for f in P.funcs.values():
+        owner = f.cls
+        q = f.parent
+        while owner is None and q is not None:
+            owner = q.cls
+            q = q.parent
+        if owner is not pool:
+            continue
+        top = f
+        while top.parent is not None:
+            top = top.parent
+        for node in walk_local(f.node):
+            hit = None
+            if isinstance(node, (ast.Assign, ast.AugAssign, ast.Delete)):
+                targets = node.targets if isinstance(node, (ast.Assign, ast.Delete)) else [node.target]
+                for t in targets:
+                    base = t
+                    while isinstance(base, ast.Subscript):
+                        base = base.value
+                    if is_self_attr(base) and base.attr in POOL_FRAME:
+                        hit = base.attr
+            if isinstance(node, ast.Call) and last_attr(node) in MUT2 and isinstance(node.func, ast.Attribute) and is_self_attr(node.func.value) and node.func.value.attr in POOL_FRAME:
+                hit = node.func.value.attr
+            if hit:
+                n_fr += 1
+                ctx.check('R2', f'{f.short}: update of self.{hit} is made by one of {sorted(POOL_FRAME[hit])}', top.name in POOL_FRAME[hit], f.short, f'unexpected-writer:{hit}@{top.name}',
+                          f'{f.short} changes self.{hit} - the pool-level tables/flags are only changed by {sorted(POOL_FRAME[hit])}', where=loc(f, node))
+    ctx.floor('updates of the pool-level state', n_fr, 12)
     # ---------------------------------------------------------------- R4 guard
     fin = any(isinstance(s, ast.Assign) and any(is_self_attr(x, '_map_guard') for x in s.targets) and isinstance(s.value, ast.Constant) and s.value.value is False for s in tries[0].finalbody)
     ctx.check('R4', 'Pool.run clears the map guard in a finally', fin, 'Pool.run', 'map-guard-not-reset',
